@@ -29,6 +29,8 @@ func init() {
 			// every single perturbation at every position, every bit of the main file
 			{Scenario: "l0/chunks", Params: p("enum", "1", "cs", "1024"), Share: 3, MaxRuns: chunks.EnumRuns},
 			{Scenario: "l0/chunks", Params: p("enum", "1", "cs", "1100", "ct", "snappy"), Share: 2, MaxRuns: chunks.EnumRuns},
+			// main files of more than two blocks (the validator works incrementally only then)
+			{Scenario: "l0/chunks", Params: p("big", "only"), Share: 2},
 		},
 		ThoroughParts: []runner.Part{
 			{Scenario: "l0/chunks", Params: p("enum", "1", "cs", "2048"), Share: 1, MaxRuns: chunks.EnumRuns},
